@@ -14,6 +14,18 @@ impl<'a> fmt::Display for Via<'a> {
     }
 }
 
+/// the same for `Debug` (needed for the `{:x?}` / `{:X?}` conversions, which exist for Debug only)
+pub struct ViaDbg<'a>(pub &'a dyn Fn(&mut fmt::Formatter<'_>) -> fmt::Result);
+impl<'a> fmt::Debug for ViaDbg<'a> {
+    fn fmt(&self, f: &mut fmt::Formatter<'_>) -> fmt::Result {
+        (self.0)(f)
+    }
+}
+/// `{:x?}` / `{:X?}` with the sign / `#` / `0` flags of `spec.combo % 8`, its width and precision
+pub fn render_dbghex(spec: Spec, upper: bool, f: &dyn Fn(&mut fmt::Formatter<'_>) -> fmt::Result) -> Result<String, fmt::Error> {
+    fmt_table::render_dbghex(&ViaDbg(f), upper, spec.combo % 8, spec.width, spec.prec)
+}
+
 #[derive(Clone, Copy, Debug, PartialEq, Eq)]
 pub struct Spec {
     pub combo: usize,
